@@ -45,6 +45,7 @@ type ktxn struct {
 type kdb struct {
 	db    *leveldb.DB
 	mode  int
+	alive bool // switched to read-only, but the compaction goroutines did not leave (code before the repair)
 	snaps []*ksnap
 	iters []*kiter
 	txns  []*ktxn
@@ -300,7 +301,17 @@ func runKSeq(r *vlib.RNG, st *vstor.Stor, has bool, cfg dbh.Cfg, pool [][]byte, 
 		if d.mode == mClosed {
 			closedBurst--
 		}
-		if !settle(d.db, st, d.mode == mRW || d.mode == mRSwitched, 20*time.Second) {
+		if d.mode == mRSwitched && !d.alive {
+			// the drain of a switched DB: the job in flight finishes, the compaction goroutines leave
+			stopped, stable := settleSwitched(d.db, st, 3*time.Second, 20*time.Second)
+			if !stopped {
+				d.alive = true
+				res.counts["k_switched_compaction_goroutines_still_running"]++
+			}
+			if !stable {
+				res.truncated = true
+			}
+		} else if !settle(d.db, st, d.mode == mRW || d.mode == mRSwitched, 20*time.Second) {
 			res.truncated = true
 		}
 		if ms := mutations(st); len(ms) > n0 {
